@@ -131,14 +131,47 @@ func ruleRingMod(c *Ctx) {
 					}
 					nViews++
 					key := fname + "@" + sel.Sel.Name
-					x, m, ok := isModOf(info, call.Args[0], defs)
+					// the index in its resolved normal form (locals and one-line helpers of the package read through, the
+					// receiver written `recv`): one atom mod(<something of the key>, recv.VectorLength)
+					polyRecv = recvObj
+					polyInline = inlinableFuncs(c.P)
+					polyReach, polyPaths = reachingDefs(info, fd.Body), true
+					ip, okp := exprPoly(info, call.Args[0], defs, nil, 0)
+					polyRecv, polyInline, polyReach, polyPaths = nil, nil, nil, false
+					dividend, modulus := "", ""
+					if okp && len(ip) == 1 {
+						for a, cf := range ip {
+							if cf == 1 && strings.HasPrefix(a, "mod(") && strings.HasSuffix(a, ")") {
+								in := a[4 : len(a)-1]
+								depth := 0
+								for i := 0; i < len(in); i++ {
+									switch in[i] {
+									case '(', '[':
+										depth++
+									case ')', ']':
+										depth--
+									case ',':
+										if depth == 0 {
+											dividend, modulus = in[:i], in[i+1:]
+										}
+									}
+								}
+							}
+						}
+					}
+					hasKey := false
+					for _, t := range identTokRe.FindAllString(dividend, -1) {
+						if t == keyParam.Name() {
+							hasKey = true
+						}
+					}
 					switch {
-					case !ok:
+					case modulus == "":
 						c.bad(key, call.Pos(), "%s indexes the ring vector with `%s`, which is not reduced modulo the vector length: epochs/slots beyond the vector length address no element (or the wrong one)", fname, types.ExprString(call.Args[0]))
-					case !mentionsObj(info, x, keyParam):
-						c.bad(key, call.Pos(), "%s: ring index `%s %% …` does not derive from the %s parameter", fname, types.ExprString(x), keyParam.Name())
-					case !isRecvVectorLength(info, m, recvObj):
-						c.bad(key, call.Pos(), "%s: ring index is reduced modulo `%s`, not the receiver's VectorLength", fname, types.ExprString(m))
+					case !hasKey:
+						c.bad(key, call.Pos(), "%s: ring index `%s %% …` does not derive from the %s parameter", fname, dividend, keyParam.Name())
+					case modulus != "recv.VectorLength":
+						c.bad(key, call.Pos(), "%s: ring index is reduced modulo `%s`, not the receiver's VectorLength", fname, modulus)
 					default:
 						c.ok(key, call.Pos(), "index = uint64(%s) %% %s.VectorLength", keyParam.Name(), recvObj.Name())
 					}
